@@ -520,6 +520,99 @@ func (e *OpEngine) Instances(name string, b Bounds) []*Call {
 			}
 		}
 	}
+	/* ----- every subset of tracked operands (multi-operand operations, representative shapes) ----- */
+	type multi struct {
+		name   string
+		shapes [][]sym.Poly
+		build  func(e *OpEngine, ts []interp.PtrV) []interp.Value
+		pkgFn  bool
+		dim    int
+		cases  bool
+	}
+	d2 := allAtoms("a", 2)
+	binArgs := func(e *OpEngine, ts []interp.PtrV) []interp.Value { return []interp.Value{ts[0], e.W.Boxed(ts[1])} }
+	var multis []multi
+	for _, op := range []string{"Add", "Sub", "Mul", "Div", "ElMax", "ElMin", "Dot"} {
+		multis = append(multis, multi{name: op, shapes: [][]sym.Poly{d2, d2}, build: binArgs, cases: op == "ElMax" || op == "ElMin"})
+	}
+	multis = append(multis,
+		multi{name: "Add", shapes: [][]sym.Poly{d2, {sym.PAtom("a1")}}, build: binArgs},
+		multi{name: "Mul", shapes: [][]sym.Poly{{sym.PInt(1)}, d2}, build: binArgs},
+		multi{name: "MatMul", shapes: [][]sym.Poly{d2, {sym.PAtom("a1"), sym.PAtom("k")}}, build: binArgs},
+		multi{name: "MatMul", shapes: [][]sym.Poly{{sym.PAtom("b"), sym.PAtom("a0"), sym.PAtom("a1")}, {sym.PAtom("a1"), sym.PAtom("k")}}, build: binArgs},
+		multi{name: "Patch", shapes: [][]sym.Poly{d2, {sym.PInt(1), sym.PAtom("a1")}}, build: func(e *OpEngine, ts []interp.PtrV) []interp.Value {
+			return []interp.Value{ts[0], e.rangesArg(symRanges(1)), e.W.Boxed(ts[1])}
+		}},
+	)
+	for nops := 2; nops <= b.ConcatOps; nops++ {
+		for k := 0; k < 2; k++ {
+			var shapes [][]sym.Poly
+			for i := 0; i < nops; i++ {
+				d := allAtoms("c", 2)
+				d[k] = sym.PAtom(fmt.Sprintf("w%d", i))
+				shapes = append(shapes, d)
+			}
+			multis = append(multis, multi{name: "Concat", shapes: shapes, pkgFn: true, dim: k, build: func(e *OpEngine, ts []interp.PtrV) []interp.Value {
+				vals := make([]interp.Value, len(ts))
+				for i, t := range ts {
+					vals[i] = e.W.Boxed(t)
+				}
+				return []interp.Value{e.M.SliceOf(e.A.TensorIface, vals, "ts"), intV(sym.PInt(int64(k)))}
+			}})
+		}
+	}
+	for _, mu := range multis {
+		if !want(mu.name) {
+			continue
+		}
+		var fn *ssa.Function
+		if mu.pkgFn {
+			fn = e.P.Func(core.PkgCPU, mu.name)
+		} else {
+			fn = e.method(mu.name)
+		}
+		n := len(mu.shapes)
+		var cases []FactCase
+		if mu.cases {
+			mkCase := func(nm string, sg sym.Sign) FactCase {
+				return FactCase{Name: nm, Facts: func(e *OpEngine) sym.Facts {
+					f := sym.Facts{}
+					for r := 0; r <= 6; r++ {
+						f[sym.Sub(sym.LeafE("A", spec.IdentIdx(r)), sym.LeafE("B", spec.IdentIdx(r))).Key()] = sg
+					}
+					return f
+				}}
+			}
+			cases = []FactCase{mkCase("a>b", sym.SignBigPos), mkCase("a<b", sym.SignBigNeg)}
+		}
+		for mask := 1; mask < (1<<n)-1; mask++ {
+			lbl := mu.name + " tracked-subset{"
+			for i := 0; i < n; i++ {
+				if mask&(1<<i) != 0 {
+					lbl += fmt.Sprintf("%d", i)
+				}
+			}
+			lbl += "} shapes="
+			for _, sh := range mu.shapes {
+				lbl += shapeStr(sh)
+			}
+			add(&Call{Fn: fn, Label: lbl, CheckGrad: true, Dim: mu.dim, Cases: cases, MaxPaths: 8000,
+				Build: func(e *OpEngine) []interp.Value {
+					e.M.Base = sizeBase(mu.shapes...)
+					e.LeafRng = nil
+					ts := make([]interp.PtrV, n)
+					for i := range ts {
+						rng := spec.Rng(-1e3, 1e3)
+						if mu.name == "Div" && i == 1 {
+							rng = spec.Rng(1e-3, 1e3)
+						}
+						e.LeafRng = append(e.LeafRng, rng)
+						ts[i] = e.mkTensor(roleName(i), TensorArg{Dims: mu.shapes[i], Tracked: mask&(1<<i) != 0, Rng: rng})
+					}
+					return mu.build(e, ts)
+				}})
+		}
+	}
 	return out
 }
 
@@ -706,4 +799,159 @@ func contractionPairs(op string, ra, rb int) [][2][]sym.Poly {
 		}
 	}
 	return out
+}
+
+/* ---------- tracking-flag instances (C08) ---------- */
+
+type flagCombo struct{ tracked, dirty bool }
+
+var flagCombos = []flagCombo{{true, false}, {false, false}, {true, true}, {false, true}}
+
+// FlagInstances enumerates, for every public operation on one representative shape, every combination of
+// (tracked, spent) flags of its tensor operands.  Gradient obligations are off: only the state rules run.
+func (e *OpEngine) FlagInstances() []*Call {
+	var out []*Call
+	d2 := allAtoms("a", 2)
+	unit := []sym.Poly{sym.PAtom("a0"), sym.PInt(1)}
+	type mk func(e *OpEngine, ts []interp.PtrV) []interp.Value
+	type opdef struct {
+		name   string
+		nT     int
+		shapes [][]sym.Poly
+		args   mk
+		pkgFn  bool
+	}
+	un := func(extra func(e *OpEngine) []interp.Value) mk {
+		return func(e *OpEngine, ts []interp.PtrV) []interp.Value {
+			a := []interp.Value{ts[0]}
+			if extra != nil {
+				a = append(a, extra(e)...)
+			}
+			return a
+		}
+	}
+	bin := func(e *OpEngine, ts []interp.PtrV) []interp.Value { return []interp.Value{ts[0], e.W.Boxed(ts[1])} }
+	var defs []opdef
+	for _, n := range pointwiseUnary {
+		defs = append(defs, opdef{name: n, nT: 1, shapes: [][]sym.Poly{d2}, args: un(nil)})
+	}
+	defs = append(defs,
+		opdef{name: "Scale", nT: 1, shapes: [][]sym.Poly{d2}, args: un(func(e *OpEngine) []interp.Value { return []interp.Value{interp.FloatC(2)} })},
+		opdef{name: "Pow", nT: 1, shapes: [][]sym.Poly{d2}, args: un(func(e *OpEngine) []interp.Value { return []interp.Value{interp.FloatC(2)} })},
+		opdef{name: "Transpose", nT: 1, shapes: [][]sym.Poly{d2}, args: un(nil)},
+		opdef{name: "UnSqueeze", nT: 1, shapes: [][]sym.Poly{d2}, args: un(func(e *OpEngine) []interp.Value { return []interp.Value{intV(sym.PInt(1))} })},
+		opdef{name: "Squeeze", nT: 1, shapes: [][]sym.Poly{unit}, args: un(func(e *OpEngine) []interp.Value { return []interp.Value{intV(sym.PInt(1))} })},
+		opdef{name: "Flatten", nT: 1, shapes: [][]sym.Poly{d2}, args: un(func(e *OpEngine) []interp.Value { return []interp.Value{intV(sym.PInt(0))} })},
+		opdef{name: "Reshape", nT: 1, shapes: [][]sym.Poly{d2}, args: un(func(e *OpEngine) []interp.Value {
+			return []interp.Value{e.intsArg([]sym.Poly{sym.PAtom("a0").Mul(sym.PAtom("a1"))})}
+		})},
+		opdef{name: "Broadcast", nT: 1, shapes: [][]sym.Poly{unit}, args: un(func(e *OpEngine) []interp.Value {
+			return []interp.Value{e.intsArg([]sym.Poly{sym.PAtom("n0"), sym.PAtom("a0"), sym.PAtom("e1")})}
+		})},
+		opdef{name: "Slice", nT: 1, shapes: [][]sym.Poly{d2}, args: un(func(e *OpEngine) []interp.Value { return []interp.Value{e.rangesArg(nil)} })},
+	)
+	for _, n := range reducers {
+		defs = append(defs, opdef{name: n, nT: 1, shapes: [][]sym.Poly{d2}, args: un(func(e *OpEngine) []interp.Value { return []interp.Value{intV(sym.PInt(1))} })})
+	}
+	for _, n := range append(append([]string{}, comparisons...), "ElMax", "ElMin", "Add", "Sub", "Mul", "Div", "Dot") {
+		defs = append(defs, opdef{name: n, nT: 2, shapes: [][]sym.Poly{d2, d2}, args: bin})
+	}
+	defs = append(defs,
+		opdef{name: "Add", nT: 2, shapes: [][]sym.Poly{d2, {sym.PAtom("a1")}}, args: bin}, // implicit expansion
+		opdef{name: "MatMul", nT: 2, shapes: [][]sym.Poly{d2, {sym.PAtom("a1"), sym.PAtom("k")}}, args: bin},
+		opdef{name: "MatMul", nT: 2, shapes: [][]sym.Poly{{sym.PAtom("b"), sym.PAtom("a0"), sym.PAtom("a1")}, {sym.PAtom("a1"), sym.PAtom("k")}}, args: bin},
+		opdef{name: "Patch", nT: 2, shapes: [][]sym.Poly{d2, d2}, args: func(e *OpEngine, ts []interp.PtrV) []interp.Value {
+			return []interp.Value{ts[0], e.rangesArg(nil), e.W.Boxed(ts[1])}
+		}},
+		opdef{name: "Concat", nT: 2, pkgFn: true, shapes: [][]sym.Poly{d2, d2}, args: func(e *OpEngine, ts []interp.PtrV) []interp.Value {
+			return []interp.Value{e.M.SliceOf(e.A.TensorIface, []interp.Value{e.W.Boxed(ts[0]), e.W.Boxed(ts[1])}, "ts"), intV(sym.PInt(0))}
+		}},
+		opdef{name: "Concat", nT: 3, pkgFn: true, shapes: [][]sym.Poly{d2, d2, d2}, args: func(e *OpEngine, ts []interp.PtrV) []interp.Value {
+			return []interp.Value{e.M.SliceOf(e.A.TensorIface, []interp.Value{e.W.Boxed(ts[0]), e.W.Boxed(ts[1]), e.W.Boxed(ts[2])}, "ts"), intV(sym.PInt(1))}
+		}},
+	)
+	for _, d := range defs {
+		var fn *ssa.Function
+		if d.pkgFn {
+			fn = e.P.Func(core.PkgCPU, d.name)
+		} else {
+			fn = e.method(d.name)
+		}
+		n := 1
+		for i := 0; i < d.nT; i++ {
+			n *= len(flagCombos)
+		}
+		for code := 0; code < n; code++ {
+			flags := make([]flagCombo, d.nT)
+			c := code
+			lbl := d.name
+			for i := range flags {
+				flags[i] = flagCombos[c%len(flagCombos)]
+				c /= len(flagCombos)
+				lbl += fmt.Sprintf(" op%d(tracked=%v,spent=%v)", i, flags[i].tracked, flags[i].dirty)
+			}
+			add := &Call{Fn: fn, Label: lbl, CheckGrad: false,
+				Build: func(e *OpEngine) []interp.Value {
+					e.M.Base = sizeBase(d.shapes...)
+					e.LeafRng = nil
+					ts := make([]interp.PtrV, d.nT)
+					for i := range ts {
+						ts[i] = e.mkTensor(roleName(i), TensorArg{Dims: d.shapes[i], Tracked: flags[i].tracked, Dirty: flags[i].dirty})
+					}
+					return d.args(e, ts)
+				}}
+			out = append(out, add)
+		}
+	}
+	return out
+}
+
+// ResetInstances: ResetGradContext(b) on tensors in every state.
+func (e *OpEngine) RunResetChecks() {
+	fn := e.method("ResetGradContext")
+	key := "cputensor.(*CPUTensor).ResetGradContext"
+	if fn == nil {
+		e.undecided("anchor", key, "missing", "", "ResetGradContext not found")
+		return
+	}
+	d := allAtoms("a", 1)
+	for _, fc := range flagCombos {
+		for _, withGrad := range []bool{false, true} {
+			for _, want := range []bool{false, true} {
+				_, err := e.M.Explore(16, func() {
+					e.Begin()
+					e.M.Base = sizeBase(d)
+					t := e.mkTensor("A", TensorArg{Dims: d, Tracked: fc.tracked, Dirty: fc.dirty})
+					oldG, _ := e.W.GctxOf(t)
+					if withGrad {
+						gt := e.mkTensor("G", TensorArg{Dims: d})
+						interp.Store(oldG.C.Fields[e.A.GGradient], e.W.Boxed(gt))
+					}
+					out := e.M.Run(func() interp.Value { return e.M.Call(fn, []interp.Value{t, interp.BoolC(want)}, nil) })
+					e.did("C08.reset", key)
+					if out.Kind != interp.Returned {
+						e.find("C08.reset", key, "panic", e.P.FuncPos(fn), "ResetGradContext panics: "+out.Panic.Msg)
+						return
+					}
+					gs, ok := e.readGctx(t)
+					if !ok || !gs.known {
+						e.find("C08.reset", key, "no-context", e.P.FuncPos(fn), "no readable context after ResetGradContext")
+						return
+					}
+					if gs.tracked != want || gs.dirty || !gs.gradNil || len(gs.edges) != 0 {
+						e.find("C08.reset", key, "not-a-fresh-leaf", e.P.FuncPos(fn),
+							fmt.Sprintf("after ResetGradContext(%v) on a tensor (tracked=%v spent=%v gradient=%v) the context is tracked=%v spent=%v gradient-nil=%v edges=%d, expected a fresh leaf",
+								want, fc.tracked, fc.dirty, withGrad, gs.tracked, gs.dirty, gs.gradNil, len(gs.edges)))
+					}
+					if ng, ok := e.W.GctxOf(t); ok && ng.C == oldG.C && (fc.dirty || withGrad) {
+						// reusing the old context object is fine only if it was fully reset (checked above)
+						_ = ng
+					}
+				})
+				if err != nil {
+					e.undecided("interp", key, "unsupported", "", err.Error())
+				}
+			}
+		}
+	}
 }
